@@ -715,6 +715,34 @@ static void gen_c11(const std::string& tier, std::vector<Work>& W) {
             }
         }, "empty listed signature"});
     }
+    // a listed signature that is REALLY valid for another, unlisted key of the same multisig and is consumed by that real check; the mocked key
+    // then meets an unlisted signature, which must fail (state of the mock lookup must not survive from one signature to the next)
+    for (SigVer sv : {SigVer::BASE, SigVer::WITNESS_V0}) {
+        W.push_back({[=](Violations& V, Stats2& S) {
+            Ctx c = make_ctx(2, 2, 1, 1000, sv);
+            for (size_t ti = 0; ti < T.size(); ti++) {
+                if (T[ti].name != "2-of-2 multisig" && T[ti].name != "2-of-3 multisig keys 1,3" && T[ti].name != "2-of-3 multisig keys 2,3") continue;
+                Inst I = instantiate(T[ti], c, keys, {1});
+                if (I.stack.size() != 3) continue;
+                bytes s_first = I.stack[1], s_second = I.stack[2];   // s_second is checked first (against the later keys)
+                int k_first = T[ti].slots[0].key, k_second = T[ti].slots[1].key;
+                bytes X = s_first; X[X.size() - 3] ^= 0x01;
+                uint32_t relaxed = F_STANDARD & ~(F_NULLFAIL | F_LOW_S);
+                for (uint32_t fl : {0u, relaxed}) {
+                    // the really valid second signature is ALSO listed for the first signature's key; the first signature is replaced by X
+                    { std::vector<std::pair<bytes, bytes>> L = {{s_second, keys[k_first].pub}};
+                      compare_explicit(c, I.script, {{}, X, s_second}, fl, T[ti].name + ": listed signature consumed by a real check of another key, then an unlisted signature for the mocked key", "mock:real-then-unlisted", V, S, L, true, false, "c11");
+ }
+                    // the mocked key is the later one: the listed signature passes for it, the earlier key's real signature is checked for real
+                    { std::vector<std::pair<bytes, bytes>> L = {{X, keys[k_second].pub}};
+                      // (a REALLY valid signature that is not listed for a mocked key is not offered: whether the real check still counts for a mocked
+                      //  key is not fixed by the property - the tool rejects it, a fallback to the real check would be as defensible)
+                      compare_explicit(c, I.script, {{}, s_first, X}, fl, T[ti].name + ": listed signature for the later key, real signature for the earlier key", "mock:listed-then-real", V, S, L, true, false, "c11"); }
+                    (void)k_second;
+                }
+            }
+        }, "mock and real checks in one multisig"});
+    }
     // wide multisig and long pair lists: 1-of-n with the one listed key at EVERY script position for n up to the 20-key limit (a per-operation
     // cache or mask of mocked keys narrower than 20 entries loses the far ones), n-of-n with every pair listed (lists of up to 20 pairs, in
     // script order and reversed), and the same scripts with one pair missing from the list (that signature must then fail)
@@ -894,7 +922,7 @@ int main(int argc, char** argv) {
                 std::string stage; bool ok = run_auto_mock(r["tx"].s, r["txin"].s, r["list"].s, stage);
                 if (ok != r["expect_ok"].b) vv->add("c11:auto:replay", r["label"].s + ": expected " + (r["expect_ok"].b ? "success" : "failure") + ", got " + (ok ? "success" : "failure at " + stage), J::raw("{}"));
             } else if (r["mode"].s == "auto") {
-                sc::Case c; parse_tx(unhex(r["tx"].s), c.tx); parse_tx(unhex(r["txin"].s), c.fund); c.select = int(r["select"].i()); c.flags = uint32_t(r["flags"].i()); c.label = r["label"].s; c.klass = r["klass"].s; sc::Stats s; sc::compare_session(c, *vv, s, "mc_sig", "auto", vv == &V1);
+                sc::Case c; parse_tx(unhex(r["tx"].s), c.tx); parse_tx(unhex(r["txin"].s), c.fund); c.select = int(r["select"].i()); c.flags = uint32_t(r["flags"].i()); c.label = r["label"].s; c.klass = r["klass"].s; c.amount_prefix = r["amount_prefix"].s; sc::Stats s; sc::compare_session(c, *vv, s, "mc_sig", "auto", vv == &V1);
             }
         }
         if (V1.j().s != V2.j().s) { fprintf(stderr, "NONDETERMINISTIC replay\n"); return 2; }
